@@ -32,7 +32,7 @@ REQUIRED = ["calls.finite.is_finite", "calls.PolyPerms.is_polynomial", "calls.In
             "calls.InsertionEncodablePerms.is_insertion_encodable_rightmost", "calls.InsertionEncodablePerms.is_insertion_encodable_maximum",
             "calls.Av.is_finite", "calls.Av.is_polynomial", "calls.Av.is_insertion_encodable", "containers.checked", "oneshot.checked",
             "symmetry.checked", "enumeration.finite_confirmed", "enumeration.nonpoly_fib_checked", "enumeration.poly_confirmed",
-            "av_history.sequences", "memo.poly_entries_checked", "memo.insenc_entries_checked", "cli.checked", "verdict.polynomial_true", "verdict.insenc_true", "verdict.finite_true"]
+            "av_history.sequences", "long.member_bases", "memo.poly_entries_checked", "memo.insenc_entries_checked", "cli.checked", "verdict.polynomial_true", "verdict.insenc_true", "verdict.finite_true"]
 MIN_NONTRIVIAL = 300
 CTX = None
 MON = None
@@ -277,6 +277,7 @@ def chk_av_history(ctx, bases):
 CHECKS = {"basis": chk_basis, "enum": chk_enumeration, "history": chk_history, "av_history": chk_av_history}
 
 
+
 # ---- workload ------------------------------------------------------------------------------------------------------------
 def single_witness_bases(rng, count):
     """polynomial / encodable bases from which one witness is deleted, so exactly one class is left unmet"""
@@ -293,6 +294,52 @@ def single_witness_bases(rng, count):
             drop = rng.randrange(len(full))
             out.append(full[:drop] + full[drop + 1:])
     return out
+
+
+def long_member(rng, which, n):
+    """a random permutation of length n in one of the ten classes, built from the class's description"""
+    if which < 8:
+        k = rng.randint(0, n)
+        vals = list(range(n))
+        left = sorted(rng.sample(vals, k))
+        right = sorted(set(vals) - set(left))
+        kind = which % 4
+        a = left if kind in (0, 1) else left[::-1]  # increasing or decreasing first run
+        b = right if kind in (0, 2) else right[::-1]
+        p = tuple(a + b)
+        return p if which < 4 else tuple(K.C.inv(p))
+    blocks, total = [], 0
+    while total < n:
+        size = 1 if total == n - 1 else rng.choice([1, 2])
+        blocks.append(size)
+        total += size
+    out, base = [], 0
+    for size in blocks:
+        out += [base] if size == 1 else [base + 1, base]
+        base += size
+    return tuple(out) if which == 8 else tuple(reversed(out))
+
+
+def chk_long(ctx, seed):
+    """bases built from LONG members of the ten classes and their images under the eight symmetries; all of them pass
+    through the process-wide memo tables, whose content is compared with the oracle at the end of the shard"""
+    import random
+
+    rng = random.Random(seed)
+    members = [long_member(rng, w, rng.randint(8, 11)) for w in range(10)]
+    imgs = [G.act_perm(m, members[rng.randrange(10)]) for m in G.SYMS.values()]
+    for t in members + imgs:  # touch each one alone first (memo priming), then in combinations
+        chk_basis(ctx, [list(t)], full=False)
+    chk_basis(ctx, [list(t) for t in members], full=False)
+    drop = rng.randrange(10)
+    chk_basis(ctx, [list(t) for i, t in enumerate(members) if i != drop], full=False)
+    chk_basis(ctx, [list(t) for t in imgs[:4]] + [list(members[8]), list(K.C.inv(members[9]))], full=False)
+    chk_basis(ctx, [list(K.C.inv(t)) for t in members], full=False)
+    chk_basis(ctx, [list(members[9]), list(K.C.inv(members[9])), [1, 2, 3, 0]], full=False)
+    ctx.count("long.member_bases")
+
+
+CHECKS["long"] = chk_long
 
 
 def plan(tier, seed):
@@ -324,6 +371,8 @@ def run(ctx, spec):
             chk_basis(ctx, basis, full=True)
             if rng.random() < 0.3:
                 chk_enumeration(ctx, basis)
+        for _ in range(max(3, spec["count"] // 25)):
+            chk_long(ctx, rng.randrange(10 ** 9))
         for _ in range(spec["enum"]):
             basis = [rng.sample(range(k), k) for k in (rng.choice([2, 3, 3, 4, 4]) for _ in range(rng.randint(1, 4)))]
             chk_enumeration(ctx, basis)
